@@ -437,8 +437,16 @@ fn molodensky_case(h: &H, idx: u64, rng: &mut Rng) {
         rng.short_decimal(-300.0, 300.0, 2),
         rng.short_decimal(-300.0, 300.0, 2),
     ];
+    // the target ellipsoid by name, or as the differences da and df from a source given as
+    // `ellps` or as `ellps_0`
+    let form = rng.below(3);
+    let pair = match form {
+        0 => format!("ellps_0={n0} ellps_1={n1}"),
+        1 => format!("ellps={n0} da={} df={}", num(e1.a - e0.a), num(e1.f - e0.f)),
+        _ => format!("ellps_0={n0} da={} df={}", num(e1.a - e0.a), num(e1.f - e0.f)),
+    };
     let mdef = format!(
-        "molodensky ellps_0={n0} ellps_1={n1} dx={} dy={} dz={}{}",
+        "molodensky {pair} dx={} dy={} dz={}{}",
         num(d[0]),
         num(d[1]),
         num(d[2]),
@@ -463,6 +471,7 @@ fn molodensky_case(h: &H, idx: u64, rng: &mut Rng) {
         }
     };
     h.class(if abridged { "molodensky/abridged" } else { "molodensky/standard" });
+    h.class(["molodensky/ellps_0+ellps_1", "molodensky/ellps+da+df", "molodensky/ellps_0+da+df"][form]);
     h.distinct(hash_str(&mdef));
     let dd = d[0].abs() + d[1].abs() + d[2].abs() + (e1.a - e0.a).abs() + e0.a * (e1.f - e0.f).abs();
     for _ in 0..6 {
